@@ -41,7 +41,10 @@ func H_C06_parallel() {
 			content += frame(names[g]+" - 1", sv)
 		}
 	}
-	writeFile(path, content)
+	fresh := kinds[0] == parCreate && kinds[1] == parCreate && vxrt.Bool("brand-new-file")
+	if !fresh {
+		writeFile(path, content)
+	}
 	plain := WithConfig(Dir(dir), Filename("f"))
 	upd := WithConfig(Dir(dir), Filename("f"), Update(true))
 	_ = isCI // start-up happens before the goroutines start
@@ -85,9 +88,12 @@ func H_C06_parallel() {
 		}
 	}
 	final := readFile(path)
-	total := len(frame("TestZ - 1", "z"))
-	got, _, err := getPrevSnapshot("[TestZ - 1]", path)
-	vxrt.Assert(err == nil && got == "z", "C06:bystander-entry-intact")
+	total := 0
+	if !fresh {
+		total = len(frame("TestZ - 1", "z"))
+		got, _, err := getPrevSnapshot("[TestZ - 1]", path)
+		vxrt.Assert(err == nil && got == "z", "C06:bystander-entry-intact")
+	}
 	for g := 0; g < 2; g++ {
 		got, _, err := getPrevSnapshot("["+names[g]+" - 1]", path)
 		vxrt.Assert(err == nil, "C06:no-entry-lost")
